@@ -245,6 +245,39 @@ def run_ctr(ctx):
         ctx.compare("DecryptingConsumer (counter = offset//16, skip offset%16) vs keystream model", metas, impl, model)
 
 
+def run_lit_corpus(ctx):
+    """fixed corpus for literal files: every (offset, size) shape incl. an explicit size of 0 before EOF (seeded C04-e),
+    size None, sizes past EOF, offsets at and past EOF"""
+    from allmydata.immutable.literal import LiteralFileNode
+    from allmydata import uri
+    from allmydata.util.consumer import MemoryConsumer
+    lines, impl, metas = [], [], []
+    for data in (b"", b"a", b"hello", bytes(range(55))):
+        size = len(data)
+        for off in sorted({0, 1, 2, size // 2, max(0, size - 1), size, size + 1, size + 7}):
+            for sz in (0, None, 1, 2, size, size + 5):
+                node = LiteralFileNode(uri.LiteralFileURI(data))
+                mc = MemoryConsumer()
+                box = []
+                node.read(mc, off, sz).addBoth(box.append)
+                got = b"".join(mc.chunks)
+                want = data[off:] if sz is None else data[off:off + sz]
+                case = {"kind": "lit-corpus", "data": data.hex(), "off": off, "size": sz}
+                if not box or box[0] is not mc or got != want:
+                    ctx.violation("LiteralFileNode.read does not deliver the requested slice", case,
+                                  "lit-slice-" + ("none" if sz is None else "size0" if sz == 0 else "past-eof" if off >= size else
+                                                  "clip" if off + sz > size else "inside"),
+                                  {"got_len": len(got), "want_len": len(want)})
+                lines.append("lit %s %d %s" % (hx(data), off, "N" if sz is None else sz))
+                impl.append(hx(got))
+                metas.append(case)
+                ctx.case(("litC", data.hex(), off, sz) if want else None)
+    ctx.count("corpus:lit", len(lines))
+    model = ctx.model(lines)
+    if model is not None:
+        ctx.compare("LiteralFileNode.read vs litRead (fixed corpus)", metas, impl, model)
+
+
 def run_lit(ctx):
     from allmydata.immutable.literal import LiteralFileNode
     from allmydata import uri
@@ -878,6 +911,7 @@ def run(ctx):
     # fixed corpus first (independent of VERIF_SEED): cancel of one of several readers waiting for the same segment
     # (seeded C04-a), pause/resume from outside write() with the segment arriving during the pause (C04-b), stopped /
     # repeated / concurrent reads from the end offset of a completed read on one node (C04-c)
+    run_lit_corpus(ctx)
     run_resume_corpus(ctx)
     if os.environ.get("VERIF_CORPUS_ONLY"):
         return
